@@ -74,8 +74,8 @@ func c10PoliciesAs(c *Ctx, r *Report, r1, r2, r3 string) {
 			// the pool state is fixed per evaluation: availability of every upstream and (for least_conn) its
 			// number of connections - whether or not the policy asks for them
 			nConn := 1
-			if sp.least {
-				nConn = 3
+			if sp.least || sp.choose > 0 {
+				nConn = 3 // (random_choose picks the least loaded of its sample: the helper's own cases need busy upstreams)
 			}
 			nStates := 1
 			for i := 0; i < n; i++ {
